@@ -49,6 +49,7 @@ Lemma h_stmt_log : forall w h s e n s1, h_stmt fault w h s = (e, n, s1) -> s_txl
 Proof.
   intros w h s e n s1 H. unfold h_stmt, issue in H.
   destruct h; [inversion H; reflexivity|].
+  destruct (s_dead s); [inversion H; reflexivity|].
   destruct (s_tx s); [|inversion H; reflexivity].
   destruct (fault _); [inversion H; reflexivity|].
   destruct w; inversion H; reflexivity.
@@ -59,7 +60,8 @@ Proof.
   destruct (c_nosp C); [inversion H; reflexivity|]. unfold exec_sp, issue in H.
   destruct h as [e|].
   - destruct (c_report C); inversion H; reflexivity.
-  - destruct (s_tx s).
+  - destruct (s_dead s); [destruct (c_report C); inversion H; reflexivity|].
+    destruct (s_tx s).
     + destruct (fault _).
       * destruct (c_report C); inversion H; reflexivity.
       * destruct b.
@@ -72,9 +74,9 @@ Definition body_log (body : option err -> st -> res * list obs * option err * st
   forall h s r l h' s', body h s = (r, l, h', s') -> s_txlog s' = s_txlog s.
 
 Lemma nested_log : forall body, body_log body ->
-  forall h s r o h' s', nested E C fault body h s = (r, o, h', s') -> s_txlog s' = s_txlog s.
+  forall h s r o h' s', nested0 E C fault body h s = (r, o, h', s') -> s_txlog s' = s_txlog s.
 Proof.
-  intros body HB h s r o h' s' H. unfold nested in H.
+  intros body HB h s r o h' s' H. unfold nested0 in H.
   destruct (c_nonest C).
   - destruct (body h s) as [[[r0 l0] h0] s0] eqn:Eb. inversion H; subst. eapply HB; exact Eb.
   - destruct (h_sp E C fault true (NGen (s_gen s)) h (next_gen s)) as [h1 s1] eqn:Es.
@@ -89,10 +91,19 @@ Proof.
       apply h_sp_log in Er. inversion H; subst. rewrite Er. destruct (fault _); cbn; congruence.
 Qed.
 
+Lemma nested_cx_log : forall cx body, body_log body ->
+  forall h s r o h' s', nested E C fault cx body h s = (r, o, h', s') -> s_txlog s' = s_txlog s.
+Proof.
+  intros cx body HB h s r o h' s' H. unfold nested in H. destruct cx.
+  - destruct (nested0 E C fault body h (set_dead s false)) as [[[r0 o0] h0] s0] eqn:En.
+    apply (nested_log _ HB) in En. inversion H; subst. exact En.
+  - apply (nested_log _ HB) in H. exact H.
+Qed.
+
 Lemma run_body_log : forall p, body_log (run_body E C fault p).
 Proof.
-  induction p as [o | m chk k IHk | chk k IHk | b IHb chk rcv k IHk | n k IHk | n k IHk];
-    intros h s r l h' s' H; cbn [run_body] in H.
+  induction p as [o | m chk k IHk | chk k IHk | b IHb chk rcv cx k IHk | n k IHk | n k IHk | k IHk];
+    intros h s r l h' s' H; cbn [run_body] in H; [| | | | | |apply IHk in H; exact H].
   - destruct o; inversion H; subst; reflexivity.
   - destruct (h_stmt fault (Some m) h s) as [[e n0] s1] eqn:Es. apply h_stmt_log in Es.
     destruct e as [e|]; [destruct chk|].
@@ -104,8 +115,8 @@ Proof.
     + inversion H; subst. exact Es.
     + destruct (run_body E C fault k h s1) as [[[r0 l0] h0] s0] eqn:Ek. apply IHk in Ek. inversion H; subst; congruence.
     + destruct (run_body E C fault k h s1) as [[[r0 l0] h0] s0] eqn:Ek. apply IHk in Ek. inversion H; subst; congruence.
-  - destruct (nested E C fault (run_body E C fault b) h s) as [[[r0 o0] h1] s1] eqn:En.
-    apply (nested_log _ IHb) in En.
+  - destruct (nested E C fault cx (run_body E C fault b) h s) as [[[r0 o0] h1] s1] eqn:En.
+    apply (nested_cx_log _ _ IHb) in En.
     destruct r0.
     + destruct (run_body E C fault k h1 s1) as [[[r1 l1] h2] s2] eqn:Ek. apply IHk in Ek. inversion H; subst; congruence.
     + destruct chk; [inversion H; subst; exact En|].
@@ -120,29 +131,32 @@ Proof.
     destruct (run_body E C fault k None s1) as [[[r1 l1] h2] s2] eqn:Ek. apply IHk in Ek. inversion H; subst; congruence.
 Qed.
 
-(* Commit / Rollback on the handle *)
+(* Commit / Rollback on the handle (the pool's transaction wrapper does not fail by itself) *)
+Hypothesis hard_commit : c_soft C = false.
+
 Lemma h_end_open : forall c h s tx, s_tx s = Some tx ->
-  h_end fault c h s =
+  h_end C fault c h s =
   (add_error h (if fault (length (s_ops s)) then Some fault_err else None),
    mkSt (if c && negb (fault (length (s_ops s))) then work tx else s_db s) None
         ((if c then KCommit else KRollback, fault (length (s_ops s))) :: s_ops s)
-        (s_gen s) (TEnd :: s_txlog s) (s_fl s)).
+        (s_gen s) (TEnd :: s_txlog s) (s_fl s) (s_dead s)).
 Proof.
-  intros c h s tx Htx. unfold h_end, tx_end, issue. cbn [log_tx s_tx s_ops s_db s_gen s_txlog s_fl]. rewrite Htx.
+  intros c h s tx Htx. unfold h_end, tx_end, issue. rewrite hard_commit, andb_false_r.
+  cbn [log_tx s_tx s_ops s_db s_gen s_txlog s_fl s_dead]. rewrite Htx.
   destruct (fault (length (s_ops s))); destruct c; reflexivity.
 Qed.
 Lemma h_end_closed : forall c h s, s_tx s = None ->
-  h_end fault c h s = (add_error h (Some (mkErr ETxDone false)), log_tx s TEnd).
-Proof. intros c h s Htx. unfold h_end, tx_end. cbn [log_tx s_tx]. rewrite Htx. reflexivity. Qed.
+  h_end C fault c h s = (add_error h (Some (mkErr ETxDone false)), log_tx s TEnd).
+Proof. intros c h s Htx. unfold h_end, tx_end. rewrite hard_commit, andb_false_r. cbn [log_tx s_tx]. rewrite Htx. reflexivity. Qed.
 
-Lemma run_extra_closed : forall l h s x s', s_tx s = None -> run_extra fault l h s = (x, s') ->
+Lemma run_extra_closed : forall l h s x s', s_tx s = None -> run_extra C fault l h s = (x, s') ->
   s_db s' = s_db s /\ s_ops s' = s_ops s /\ s_fl s' = s_fl s /\ s_tx s' = None
   /\ exists k, Forall (eq TEnd) k /\ s_txlog s' = k ++ s_txlog s.
 Proof.
   induction l as [|c l IH]; intros h s x s' Htx H; cbn [run_extra] in H.
   - inversion H; subst. repeat split; try reflexivity; try assumption. exists []; split; [constructor | reflexivity].
   - rewrite h_end_closed in H by exact Htx.
-    destruct (run_extra fault l (add_error h (Some (mkErr ETxDone false))) (log_tx s TEnd)) as [o s2] eqn:Er.
+    destruct (run_extra C fault l (add_error h (Some (mkErr ETxDone false))) (log_tx s TEnd)) as [o s2] eqn:Er.
     inversion H; subst. apply IH in Er; [|exact Htx].
     destruct Er as (A1 & A2 & A3 & A4 & k & K1 & K2). cbn [log_tx s_db s_ops s_fl s_txlog] in *.
     repeat split; try assumption. exists (k ++ [TEnd]). split.
